@@ -78,7 +78,9 @@ def run(ck, ix, tier):
                 why = "constructor/state restore/memo fill"
             elif recv in fresh:
                 ok, why = True, "receiver is fresh in this function"
-            elif f.name == "from_string" and recv == "ret":
+            elif f.name == "from_string" and recv in {norm(r.value) for r in walk_local(f.node) if isinstance(r, ast.Return) and isinstance(r.value, ast.Name)} \
+                    and all(isinstance(v, ast.Call) and call_name(v) in ("evaluate", "cls") for v, k, s_ in defs_of(f).defs.get(recv, []) if v is not None):
+                # the name that is returned and that only ever holds the fresh result of the evaluation / a fresh cls(...)
                 ok, why = True, "frozen exception: from_string edits the private result of the evaluation before returning it"
             ck.check(ok, "G-OWN", f"copy-on-write|{key}", f.loc(node), why,
                      f"`{norm(node).splitlines()[0]}` writes `{recv}.{fld}`, and `{recv}` is not an object created in this function (operand mutated / shared storage)")
